@@ -1,7 +1,7 @@
 #!/bin/bash
 # runs every check of the manifest (quick tier) and prints the summary line + exit code of each
 cd "$(dirname "$0")/.."
-ids=${*:-C01 C02 C03 C04 C05 C06 C07 C08 C09 C11 C12 C13 C14 C15 C16 C17 C20}
+ids=${*:-C01 C02 C03 C04 C05 C06 C07 C08 C09 C10 C11 C12 C13 C14 C15 C16 C17 C19 C20}
 for p in $ids; do
   ( out=$(./check $p --tier quick 2>&1); rc=$?; echo "$p exit=$rc $(echo "$out" | grep '^\[' | tail -1)"; echo "$out" | grep -E '^(VIOLATION|UNDECIDED|CHECKER-ERROR)' | head -5 ) &
 done
